@@ -139,13 +139,40 @@ def run(facts, R):
             "3 identical rows")
 
     # ---------------- connection loops ---------------------------------------------------------------------
-    for path, reader, writer in (("server::handle_connection", "io::read_message_into", "io::write_message_streaming"),
-                                 ("async_server::handle_connection::{closure#0}", "async_io::read_message_into_async", "async_server::write_view_response")):
+    LOOPS_ = [("server::handle_connection", "io::read_message_into", "io::write_message_streaming"),
+              ("async_server::handle_connection::{closure#0}", "async_io::read_message_into_async", "async_server::write_view_response")]
+    # derived connection loops: any other function of the TCP server modules that reads frames in a cycle and routes them is a
+    # connection loop (a `serve_stream` for caller-supplied streams, a panic-catching variant of handle_connection) with the same duties
+    READERS_ = ("io::read_message_into", "io::read_message", "async_io::read_message_into_async", "async_io::read_message_async")
+    WRITERS_ = ("io::write_message_streaming", "io::write_message", "async_server::write_view_response", "async_io::write_message_async")
+    from analysis.flow import in_cycle as _in_cycle
+    for p_, b_ in sorted(facts.bodies.items()):
+        if p_.split("::")[0] not in ("server", "async_server") or any(p_ == x[0] for x in LOOPS_) or "::tests::" in p_:
+            continue
+        rd_ = [i for i, t in b_.calls() if callee_matches(t["callee"], *READERS_)]
+        rt_ = [i for i, t in b_.calls() if callee_matches(t["callee"], SR + "route_request_view") or t["callee"]["name"].startswith("route_request_view")]
+        if rd_ and rt_ and any(_in_cycle(b_, i) for i in rd_):
+            LOOPS_.append((p_, READERS_, WRITERS_))
+            R.note("derived connection loop (judged like handle_connection): " + p_)
+    for path, reader, writer in LOOPS_:
         b = facts.body(path)
         s = Sym(b)
-        reads = [i for i, t in b.calls() if callee_matches(t["callee"], reader)]
-        rrv = [(i, t) for i, t in b.calls() if callee_matches(t["callee"], SR + "route_request_view")]
-        wr = [(i, t) for i, t in b.calls() if callee_matches(t["callee"], writer)]
+        reader = reader if isinstance(reader, tuple) else (reader,)
+        writer = writer if isinstance(writer, tuple) else (writer,)
+        reads = [i for i, t in b.calls() if callee_matches(t["callee"], *reader)]
+        rrv = [(i, t) for i, t in b.calls() if callee_matches(t["callee"], SR + "route_request_view") or (len(LOOPS_) > 2 and path not in (LOOPS_[0][0], LOOPS_[1][0]) and t["callee"]["name"].startswith("route_request_view"))]
+        wr = [(i, t) for i, t in b.calls() if callee_matches(t["callee"], *writer)]
+        nested_wr = []
+        if not wr and path not in (LOOPS_[0][0], LOOPS_[1][0]):
+            # the write sits in an `async { write(..).await?; flush().await?; Ok(()) }` block that the loop runs under a timer: judge the
+            # block where it is built (guards) and inside (flush after the write)
+            for i, j, st_ in b.assigns():
+                rv_ = st_["rv"]
+                if rv_.get("agg") in ("coroutine", "closure") and rv_.get("def") in facts.bodies:
+                    nb_ = facts.body(rv_["def"])
+                    nw_ = [(x, y) for x, y in nb_.calls() if callee_matches(y["callee"], *writer)]
+                    if nw_:
+                        nested_wr.append((i, st_, nb_, nw_))
         if not wr and getattr(b, "changed", False):
             # the frame writer was renamed / moved (a method of a small struct): any function of this module that encodes a header
             # and writes it is the writer
@@ -153,7 +180,20 @@ def run(facts, R):
             dw = {p_ for p_ in derived_frame_writers(facts) if p_.split("::")[0] == path.split("::")[0]}
             wr = [(i, t) for i, t in b.calls() if t["callee"]["path"] in dw]
         R.check(len(rrv) == 1, "handler-once", path, "one route_request_view per iteration", "found %d" % len(rrv), b.span)
-        R.floor("response-count", len(wr), 1, "response writes in " + path)
+        R.floor("response-count", len(wr) + len(nested_wr), 1, "response writes in " + path)
+        for ci_, cst_, nb_, nw_ in nested_wr:
+            fs = facts_at(b, s, facts, ci_)
+            some = any(f["val"] == "Some" and (is_call(f["expr"], SR + "route_request_view") or (f["expr"][0] == "call" and f["expr"][1].rsplit("::", 1)[-1].startswith("route_request_view"))) for f in fs)
+            R.check(some, "response-count", path, "write only for Some(response)", "a write block is built on a path where dispatch returned no response", cst_.get("span"), "guarded by route_request_view(..) is Some")
+            again = ci_ in b.reachable(b.succs(ci_), avoid=reads)
+            R.check(not again, "response-count", path, "one response per request", "the response write block can be rebuilt without reading another request", cst_.get("span"))
+            nfl_ = [term_pt(nb_, x) for x, y in nb_.calls() if y["callee"]["name"] == "flush"]
+            oks_ = [(x, y) for x, y, _ in blocks_assigning_variant(nb_, "std::result::Result", "Ok")]
+            for x, y in nw_:
+                w_ = must_cross(nb_, [term_pt(nb_, x)], oks_, nfl_) if oks_ else [0]
+                R.check(bool(nfl_) and w_ is None, "response-flushed", nb_.path, "response flushed before the next read",
+                        "the write block can complete successfully without flushing the response it wrote into the connection's BufWriter", y.get("span"),
+                        "every path write -> Ok crosses writer.flush()", path=w_ if isinstance(w_, list) and w_ != [0] else None)
         for i, t in rrv:
             again = i in b.reachable(b.succs(i), avoid=reads)
             R.check(reads and not again, "handler-once", path, "dispatch once per frame read", "route_request_view can run again without reading another frame", t.get("span"))
